@@ -611,7 +611,6 @@ func (a *AddrManager) changeRemark(dbTransaction db.DBTransaction, newRemark str
 			return err
 		}
 	}
-	a.remark = newRemark
 	return nil
 }
 
